@@ -3,7 +3,7 @@
 pub enum Role { LOCKFILE, STAGING_DIR, CAS_DIR, DB_DIR, QUARANTINE_DIR, CAS_SUBDIR, DIR_OF_BLOB,
     STAGING, BLOB, QUARANTINE, WALSEG, OLDSEG, SNAP_TMP, SNAP, TMP, TMP_FILE, TARGET, SETTINGS, INVALID_OR_STAGING_LEFTOVER, UNKNOWN }
 
-pub enum F { Intents, StateW, StateR, Wal, CsApplied, CsFiltered, CsOrphanOk, SyncMode, StagingFlushed, StagingSynced, BlobAtFinal, IntentRegistered, GuardAlive, WalWritten, WalFlushed, WalDurable, Applied, TmpWritten, TmpSynced, TargetRenamed, SnapSaved, NewsegCreated, NewsegSynced, Deleted, ToDeleteNonempty, OwnsDirlock, StoredExists, SettingsMatch, WantPrecreate, DirsPrecreated, Looked, RenameTried, SegExists, MustRollover }
+pub enum F { Intents, StateW, StateR, Wal, CsApplied, CsFiltered, CsOrphanOk, SyncMode, StagingFlushed, StagingSynced, BlobAtFinal, IntentRegistered, GuardAlive, WalWritten, WalFlushed, WalDurable, Applied, TmpWritten, TmpSynced, TargetRenamed, SnapSaved, NewsegCreated, NewsegSynced, Deleted, ToDeleteNonempty, OwnsDirlock, StoredExists, SettingsMatch, WantPrecreate, DirsPrecreated, Looked, RenameTried, SegExists, MustRollover, IntentConsumed, CsIndexChecked }
 /// the World is the set of flags that are currently true (see DESIGN.md Appendix A for their meaning)
 pub struct World { pub s: Set<F> }
 impl World {
@@ -15,7 +15,7 @@ pub open spec fn frame(a: World, b: World, fs: Set<F>) -> bool { forall|f: F| #!
 #[verifier::external_body] pub fn nondet() -> bool { unimplemented!() }
 
 /// no lock held (and therefore no critical-section-scoped fact alive)
-pub open spec fn no_locks(w: World) -> bool { !w.has(F::Intents) && !w.has(F::StateW) && !w.has(F::StateR) && !w.has(F::Wal) && !w.has(F::CsApplied) && !w.has(F::CsFiltered) && !w.has(F::CsOrphanOk) }
+pub open spec fn no_locks(w: World) -> bool { !w.has(F::Intents) && !w.has(F::StateW) && !w.has(F::StateR) && !w.has(F::Wal) && !w.has(F::CsApplied) && !w.has(F::CsFiltered) && !w.has(F::CsOrphanOk) && !w.has(F::CsIndexChecked) }
 pub open spec fn same_locks(a: World, b: World) -> bool { a.has(F::Intents) == b.has(F::Intents) && a.has(F::StateW) == b.has(F::StateW) && a.has(F::StateR) == b.has(F::StateR) && a.has(F::Wal) == b.has(F::Wal) }
 pub open spec fn is_dir_role(r: Role) -> bool { r == Role::STAGING_DIR || r == Role::CAS_DIR || r == Role::DB_DIR || r == Role::QUARANTINE_DIR || r == Role::CAS_SUBDIR || r == Role::DIR_OF_BLOB }
 
@@ -25,7 +25,7 @@ pub open spec fn is_dir_role(r: Role) -> bool { r == Role::STAGING_DIR || r == R
     ensures *final(w) == (old(w).set(F::Intents, true)) { unimplemented!() }
 #[verifier::external_body] pub fn rel_intents(w: &mut World)
     requires old(w).has(F::Intents),
-    ensures *final(w) == (old(w).set(F::Intents, false).set(F::CsApplied, false).set(F::CsFiltered, false).set(F::CsOrphanOk, false)) { unimplemented!() }
+    ensures *final(w) == (old(w).set(F::Intents, false).set(F::CsApplied, false).set(F::CsFiltered, false).set(F::CsOrphanOk, false).set(F::CsIndexChecked, false)) { unimplemented!() }
 #[verifier::external_body] pub fn acq_state_w(w: &mut World)
     requires /*lock_level*/ !old(w).has(F::StateW) && !old(w).has(F::StateR) && !old(w).has(F::Wal),
     ensures *final(w) == (old(w).set(F::StateW, true)) { unimplemented!() }
@@ -57,7 +57,16 @@ pub open spec fn is_dir_role(r: Role) -> bool { r == Role::STAGING_DIR || r == R
 /// IntentGuard::drop, which restores what it displaced)
 #[verifier::external_body] pub fn ev_intent_consume(w: &mut World)
     requires old(w).has(F::Intents), /*intent_consumed_only_after_apply*/ old(w).has(F::CsApplied),
+    ensures *final(w) == old(w).set(F::IntentConsumed, true) { unimplemented!() }
+/// any other mutation of the pending-intent map (retain / clear / drain / extend / entry / an insert that is neither the
+/// registration nor the restore): not part of the protocol
+#[verifier::external_body] pub fn ev_unexplained_intent_mutation(w: &mut World)
+    requires /*intent_map_mutated_only_by_protocol*/ false,
     ensures *final(w) == *old(w) { unimplemented!() }
+/// `state.contains_blob_hash(h)` on the live index
+#[verifier::external_body] pub fn ev_index_membership_check(w: &mut World)
+    requires old(w).has(F::StateR) || old(w).has(F::StateW),
+    ensures *final(w) == old(w).set(F::CsIndexChecked, old(w).has(F::Intents)) { unimplemented!() }
 /// `list.retain(|h| !intents.values().any(|i| i == h))`: only meaningful after the index mutation, in the same critical section
 #[verifier::external_body] pub fn ev_filter_by_intents(w: &mut World)
     requires old(w).has(F::Intents), old(w).has(F::CsApplied),
@@ -111,6 +120,14 @@ pub open spec fn is_dir_role(r: Role) -> bool { r == Role::STAGING_DIR || r == R
     ensures *final(w) == *old(w) { unimplemented!() }
 #[verifier::external_body] pub fn ev_tempfile_new_in(w: &mut World, r: Role) -> (ok: bool)
     requires /*staging_files_only_in_staging_dir*/ r == Role::STAGING_DIR,
+    ensures *final(w) == *old(w) { unimplemented!() }
+/// `temp.keep()` / `persist(..)` / `into_parts()`: the staging file would survive an abort
+#[verifier::external_body] pub fn ev_tempfile_detached(w: &mut World)
+    requires /*staging_file_delete_on_drop_never_disabled*/ false,
+    ensures *final(w) == *old(w) { unimplemented!() }
+/// `mem::forget(x)` / `ManuallyDrop::new(x)`: the value's destructor (unlock, staging-file removal, intent revert) never runs
+#[verifier::external_body] pub fn ev_forget_value(w: &mut World)
+    requires /*destructors_always_run*/ false,
     ensures *final(w) == *old(w) { unimplemented!() }
 #[verifier::external_body] pub fn ev_reopen(w: &mut World, r: Role) -> (ok: bool)
     ensures *final(w) == *old(w) { unimplemented!() }
@@ -171,7 +188,7 @@ pub open spec fn is_dir_role(r: Role) -> bool { r == Role::STAGING_DIR || r == R
     ensures *final(w) == *old(w) { unimplemented!() }
 /// orphan clean-up re-validation marker (the `still_referenced || has_intent` test did not take the skip branch)
 #[verifier::external_body] pub fn ev_revalidate_orphan(w: &mut World)
-    requires old(w).has(F::Intents),
+    requires old(w).has(F::Intents), /*revalidation_reads_live_index_in_same_cs*/ old(w).has(F::CsIndexChecked),
     ensures *final(w) == (old(w).set(F::CsOrphanOk, true)) { unimplemented!() }
 
 /// `state.apply_logical_op(op)` on the live index: only under the state write lock, after the record is durable
